@@ -29,6 +29,9 @@ ABSPATH = z3.Function('abspath', z3.StringSort(), z3.StringSort())
 BASENAME = z3.Function('basename', z3.StringSort(), z3.StringSort())
 
 
+_FRESH = itertools.count()
+
+
 class S:
     """symbolic python str as a z3 String term (only where string identity matters: file names)"""
     def __init__(self, term):
@@ -88,7 +91,8 @@ class X:
         self.max_unroll = max_unroll
         self.depth = 0
         self.transparent = set()    # FuncSrc.ref of every function unfolded at a call site
-        self.fresh_id = itertools.count()
+        self.fresh_id = _FRESH      # process-global: names of generic-iteration variables never collide between executors
+        self.native_literals = []
         self.loop_idx = []          # (fresh index var, bound) of every generic loop / element evaluation
 
     # ---------------------------------------------------------------- entry points
@@ -228,6 +232,8 @@ class X:
         return T(self._elts(e.elts, env, st))
 
     def ev_List(self, e, env, st):
+        if not e.elts and 'new:list' in self.intr:
+            return self.intr['new:list'](self, st)
         return T(self._elts(e.elts, env, st), 'list')
 
     def _elts(self, elts, env, st):
@@ -243,6 +249,8 @@ class X:
         return out
 
     def ev_Dict(self, e, env, st):
+        if not e.keys and 'new:dict' in self.intr:
+            return self.intr['new:dict'](self, st)
         kv = {}
         for k, v in zip(e.keys, e.values):
             if k is None:
@@ -396,6 +404,8 @@ class X:
                     r = r * s_
                 return r
             return ('arrmethod', b, name)
+        if hasattr(b, 'acc_attr'):
+            return b.acc_attr(self, st, name)
         if isinstance(b, (T, E, S, M, D)):
             return ('valmethod', b, name)
         if isinstance(b, ClassSrc):
@@ -487,6 +497,8 @@ class X:
             if not isinstance(i, T):
                 raise Unsupported('map key')
             return self.map_get(b, i, st, ln)
+        if hasattr(b, 'acc_index'):
+            return b.acc_index(self, st, i)
         h = self.intr.get(('index', getattr(b, 'tag', type(b).__name__)))
         if h is not None:
             return h(self, st, b, i)
@@ -690,6 +702,12 @@ class X:
             if isinstance(op, ast.Div):
                 za = Z(a)
                 return (z3.ToReal(za) if not za.is_real() else za) / (z3.ToReal(zb) if not zb.is_real() else zb)
+            if self.pos_div and not Z(a).is_real() and not zb.is_real():
+                # lattice arithmetic: divisors are positive under the class precondition (recorded as a side obligation)
+                pos = z3.simplify(zb > 0)
+                if not z3.is_true(pos):
+                    st.side.append(('posdiv@%d' % ln, st.live, pos))
+                return (Z(a) % zb) if isinstance(op, ast.Mod) else (Z(a) / zb)
             return py_mod(a, b) if isinstance(op, ast.Mod) else py_floordiv(a, b)
         raise Unsupported('operator %s' % type(op).__name__)
 
@@ -751,6 +769,8 @@ class X:
             if not isinstance(item, T):
                 raise Unsupported('map membership key')
             return self.map_has(container, item)
+        if hasattr(container, 'acc_contains'):
+            return container.acc_contains(self, st, item)
         h = self.intr.get(('contains', getattr(container, 'tag', type(container).__name__)))
         if h is not None:
             return h(self, st, container, item)
@@ -805,6 +825,7 @@ class X:
 
     _cur_class = None
     comp_idx = []
+    pos_div = False
 
     def apply(self, fv, args, kwargs, st, node=None):
         if isinstance(fv, tuple) and fv and fv[0] == 'bound':
@@ -824,6 +845,8 @@ class X:
             return self.builtin(fv.tag, args, kwargs, st, node)
         if isinstance(fv, tuple) and fv and fv[0] == 'valmethod':
             return self.valmethod(fv[1], fv[2], args, kwargs, st, node)
+        if isinstance(fv, tuple) and fv and fv[0] == 'accmethod':
+            return fv
         if isinstance(fv, tuple) and fv and fv[0] == 'arrmethod':
             return self.arrmethod(fv[1], fv[2], args, kwargs, st, node)
         if isinstance(fv, ClassSrc):
@@ -874,6 +897,10 @@ class X:
                 return v
             if isinstance(v, tuple) and v and v[0] == 'valmethod' and v[2] in ('keys',):
                 return v[1]
+            if isinstance(v, tuple) and v and v[0] == 'accmethod' and v[2] in ('keys',):
+                return v[1]
+            if hasattr(v, 'acc_loop'):
+                return v
             if isinstance(v, R):
                 return self._range_items(v)
             raise Unsupported('%s(%s)' % (name, type(v).__name__))
@@ -882,6 +909,8 @@ class X:
                 if isinstance(args[0], D):
                     return D(args[0].kv)
                 raise Unsupported('dict(x)')
+            if 'new:dict' in self.intr:
+                return self.intr['new:dict'](self, st)
             return M()
         if name == 'len':
             v = args[0]
@@ -988,6 +1017,12 @@ class X:
             return self.numpy(name.split('.', 1)[1], args, kwargs, st, node)
         if name.startswith('itertools.'):
             if name == 'itertools.product':
+                rep = conc(kwargs.get('repeat', 1))
+                if all(isinstance(a, T) for a in args) and isinstance(rep, int):
+                    lists = [a.items for a in args] * rep
+                    return T([T(list(c)) for c in itertools.product(*lists)], 'list')
+                if kwargs:
+                    raise Unsupported('itertools.product(repeat=) over symbolic factors')
                 return ('product', args)
         if name in ('os.path.join',):
             parts = [to_S(a) for a in args]
@@ -1056,7 +1091,10 @@ class X:
             if isinstance(v, (bool, z3.BoolRef)) and fn in ('all', 'any'):
                 return B(v)
             if isinstance(v, T):
-                return self.builtin('builtin:' + {'prod': 'prod'}.get(fn, fn), [v], {}, st, node)
+                if fn in ('all', 'any'):
+                    bs = [B(x) for x in v.items]
+                    return z3.And(bs + [TRUE]) if fn == 'all' else z3.Or(bs + [FALSE])
+                return self.builtin('builtin:' + fn, [v], {}, st, node)
             raise Unsupported('np.%s of %s' % (fn, type(v).__name__))
         if fn in ('hstack', 'concatenate'):
             parts = args[0].items if isinstance(args[0], T) else None
@@ -1187,6 +1225,8 @@ class X:
                 return self.ev(e.elt, env2, ls)
             self.eager(it.shape, f2, st)
             return Arr(it.shape, f2, 'obj', 'fresh')
+        if hasattr(it, 'acc_comp'):
+            return it.acc_comp(self, st, e, env, kind)
         if not isinstance(it, T):
             h = self.intr.get(('comp', getattr(it, 'tag', type(it).__name__)))
             if h is not None:
@@ -1225,6 +1265,9 @@ class X:
                 self.assign(t, v, env, st)
         elif isinstance(tgt, ast.Subscript):
             base = self.ev(tgt.value, env, st)
+            if hasattr(base, 'acc_store'):
+                base.acc_store(self, st, self.ev(tgt.slice, env, st), val)
+                return
             if isinstance(base, M):
                 key = self.ev(tgt.slice, env, st)
                 if isinstance(val, str):
@@ -1344,6 +1387,9 @@ class X:
         # mutating method calls: list.append / dict.pop
         if isinstance(v, ast.Call) and isinstance(v.func, ast.Attribute) and v.func.attr in ('append', 'pop', 'extend'):
             base = self.ev(v.func.value, env, st)
+            if hasattr(base, 'acc_append') and v.func.attr == 'append':
+                base.acc_append(self, st, self.ev(v.args[0], env, st))
+                return
             if isinstance(base, Alt) and v.func.attr == 'append' and all(isinstance(b, T) for _, b in base.alts):
                 item = self.ev(v.args[0], env, st)
                 self._store_back(v.func.value, Alt([(c, T(b.items + [item], b.kind)) for c, b in base.alts], base.partial), env, st)
@@ -1368,9 +1414,57 @@ class X:
         pass
 
     def st_Assign(self, s, env, st):
-        val = self.ev(s.value, env, st)
+        try:
+            val = self.ev(s.value, env, st)
+        except Unsupported:
+            val = self.native_closed(s.value, env)
+            if val is None:
+                raise
         for t in s.targets:
             self.assign(t, val, env, st)
+
+    def native_closed(self, node, env):
+        """closed sub-expression (no symbolic input): evaluate natively, import the result as a literal"""
+        ns = {'np': np, 'itertools': itertools, 'list': list, 'tuple': tuple, 'range': range, 'len': len, 'int': int}
+        for n in ast.walk(node):
+            if isinstance(n, ast.Name) and n.id not in ns:
+                if n.id not in env:
+                    return None
+                py = self._to_py(env[n.id])
+                if py is None:
+                    return None
+                ns[n.id] = py
+        try:
+            r = eval(compile(ast.Expression(body=node), '<closed>', 'eval'), {'__builtins__': {}}, ns)
+        except Exception:
+            return None
+        self.native_literals.append(ast.unparse(node)[:120])
+        return self._from_py(r)
+
+    native_literals = []
+
+    def _to_py(self, v):
+        if isinstance(v, (bool, int, float, str, np.integer, np.floating)):
+            return v
+        if isinstance(v, T):
+            items = [self._to_py(x) for x in v.items]
+            if any(i is None for i in items):
+                return None
+            return np.array(items) if v.kind == 'vec' else (tuple(items) if v.kind == 'tuple' else items)
+        if isinstance(v, E) and v.is_const():
+            return v.alts[0][1]
+        return None
+
+    def _from_py(self, r):
+        if isinstance(r, np.ndarray):
+            return self._from_py(r.tolist()) if r.ndim else r.item()
+        if isinstance(r, (list, tuple)):
+            return T([self._from_py(x) for x in r], 'list' if isinstance(r, list) else 'tuple')
+        if isinstance(r, (bool, int, float, np.integer, np.floating)):
+            return r.item() if isinstance(r, (np.integer, np.floating)) else r
+        if isinstance(r, str):
+            return E.const(r)
+        raise Unsupported('native literal of type %s' % type(r).__name__)
 
     def st_AnnAssign(self, s, env, st):
         if s.value is not None:
@@ -1472,6 +1566,12 @@ class X:
     def for_over(self, s, it, env, st):
         if isinstance(it, tuple) and it and it[0] == 'valmethod' and isinstance(it[1], T):
             it = it[1]
+        if isinstance(it, tuple) and it and it[0] == 'accmethod' and it[2] == 'keys':
+            it = it[1]
+        if isinstance(it, tuple) and it and it[0] == 'valmethod' and isinstance(it[1], M) and it[2] == 'keys':
+            h = self.intr.get('loop:mapkeys')
+            if h is not None:
+                return h(self, st, s, it[1], env)
         if isinstance(it, R):
             try:
                 it = self._range_items(it)
@@ -1482,11 +1582,17 @@ class X:
                 raise
         if isinstance(it, tuple) and it and it[0] == 'product':
             lists = []
-            for r in it[1]:
-                r = self._range_items(r) if isinstance(r, R) else r
-                if not isinstance(r, T):
-                    raise Unsupported('product over symbolic')
-                lists.append(r.items)
+            try:
+                for r in it[1]:
+                    r = self._range_items(r) if isinstance(r, R) else r
+                    if not isinstance(r, T):
+                        raise Unsupported('product over symbolic')
+                    lists.append(r.items)
+            except Unsupported:
+                h = self.intr.get('loop:product')
+                if h is not None:
+                    return h(self, st, s, it[1], env)
+                raise
             it = T([T(list(c)) for c in itertools.product(*lists)], 'list')
         if isinstance(it, Alt):
             outer = st.live
@@ -1502,6 +1608,8 @@ class X:
                 self.assign(s.target, item, env, st)
                 self._loop_body(s.body, env, st)
             return
+        if hasattr(it, 'acc_loop'):
+            return it.acc_loop(self, st, s, env)
         h = self.intr.get(('loop', getattr(it, 'tag', it[0] if isinstance(it, tuple) else type(it).__name__)))
         if h is not None:
             return h(self, st, s, it, env)
